@@ -23,9 +23,13 @@ theorem parseShortName_eq_spec (app : AppCfg) (file : String) :
       · simp [h1, h3]
       · simp [h1, h3]
 
-theorem classNameOf_eq (f : String → Option String) : classNameOf f = f "self" := by
-  unfold classNameOf
-  cases h : f "self" <;> simp
+theorem classNameOf_eq (fr : RawFrame) : classNameOf (localSelf fr) = Spec.classOfSelf fr := by
+  unfold classNameOf localSelf Spec.classOfSelf
+  cases h : fr.classes.find? (fun e => e.1 == "self") with
+  | none => simp
+  | some e =>
+    obtain ⟨k, v⟩ := e
+    cases v <;> simp
 
 /-! ### the walk -/
 
@@ -34,8 +38,7 @@ theorem visited_eq (stack : Stack) : visited stack = stack := by
 
 theorem viewOf_frameRecord (H : Heap) (app : AppCfg) (fr : RawFrame) (vs : List VarId) :
     Spec.viewOf (frameRecord H app fr vs) = Spec.frameView H app fr := by
-  simp [Spec.viewOf, frameRecord, processFrame, Spec.frameView, parseShortName_eq_spec, classNameOf_eq,
-        Spec.classOfSelf]
+  simp [Spec.viewOf, frameRecord, processFrame, Spec.frameView, parseShortName_eq_spec, classNameOf_eq]
 
 theorem walkFrom_views (H : Heap) (app : AppCfg) (stack : Stack) (vars : List (List VarId)) :
     (walkFrom H app stack vars).map Spec.viewOf = stack.map (Spec.frameView H app) := by
